@@ -405,6 +405,10 @@ def main_for(mod, argv):
         if hasattr(mod, "worker_init"):
             mod.worker_init()
         case = rp.get("case")
+        if case is not None and isinstance(rp.get("witness"), dict) and rp["witness"].get("model_z"):
+            case = dict(case, model_z=rp["witness"]["model_z"], info=rp["witness"].get("info"))
+        if case is not None:
+            case["sdir"] = scratch_dir(mod.PID + "-replay")
         if case is None and hasattr(mod, "replay_witness"):
             res = mod.replay_witness(rp)
         else:
